@@ -1003,6 +1003,24 @@ def count_exists_pos(f, pol=True, inex=False):
     return False
 
 
+def neg_count_recursive(f, g, pol=True):
+    """Python mirror of KClasses.K_neg_count: some count atom occurs with NEGATIVE polarity and its needle
+    nonterminal is recursive (reachable from itself in the grammar; reachability is not reflexive).
+    Negated count atoms with a non-recursive needle and positive count atoms are NOT in the class."""
+    k = f[0]
+    if k in ("count", "countv"):
+        return (not pol) and f[2] in g and f[2] in reach(g, f[2])
+    if k == "not":
+        return neg_count_recursive(f[1], g, not pol)
+    if k in ("and", "or"):
+        return any(neg_count_recursive(x, g, pol) for x in f[1])
+    if k in ("forall", "exists"):
+        return neg_count_recursive(f[4], g, pol)
+    if k in ("forallint", "existsint"):
+        return neg_count_recursive(f[2], g, pol)
+    return False
+
+
 def class_of(job, tree, code, spec_fails, known_by_class):
     """class of an open known finding that explains this failing tree, or None.
     code = sol_check bit mask; spec_fails = spec_sem.py also says the constraint is violated."""
@@ -1019,6 +1037,11 @@ def class_of(job, tree, code, spec_fails, known_by_class):
             return "K_nth"
         if count_exists_pos(job["ast"]) and "K_count" in known_by_class:
             return "K_count"
+        # negated count whose needle is a RECURSIVE nonterminal (open finding
+        # negated-count-recursive-needle; Coq: KClasses.K_neg_count over the effective grammar)
+        if "K_neg_count" in known_by_class and neg_count_recursive(
+                job["ast"], effective_grammar(job["gname"], job["settings"]["start_symbol"])):
+            return "K_neg_count"
         # consecutive(): ISLa's predicate itself is wrong when the common prefix of the two nodes is
         # not the root (C04 finding consecutive-relative-paths, open).  Two manifestations, both seen:
         # the final tree satisfies ISLa's evaluator but not the documented meaning, or the wrong
